@@ -400,7 +400,7 @@ def run_part_history(sc, objs, hist):
                 second = [None] * len(parts)
                 for i in reversed(range(len(parts))):
                     second[i] = {q: hist_query(parts[i], q, sc['nodes']) for q in reversed(QUERIES)}
-                rec['obs_first'] = first
+                rec['obs_first'] = first if first != second else []     # logged only if the two passes differ
                 rec['obs'] = second
         except Exception as e:
             rec['err'] = type(e).__name__
